@@ -6,6 +6,7 @@ import I2N.Lemmas.TravGlobalN
 import I2N.Lemmas.TravGlobalR
 import I2N.Lemmas.TravFair
 import I2N.Lemmas.TravFair2
+import I2N.Lemmas.TravDefinite
 import I2N.Model.TravMon
 import I2N.Lemmas.GenReady
 /-!
@@ -1636,5 +1637,326 @@ theorem pickChild_matches_source (g : Graph) (s : State) (n w : Nat) :
   rw [genPickChild_run, pickChild, pickKey_order g s false]
   simp only [relevant, Bool.false_eq_true, if_false]
   cases stableSort _ _ <;> rfl
+
+-- ==== pxdef ====
+/-! ## The END of a run: every selected test has a definite result (`Lemmas/TravDefinite.lean`)
+
+Scheduler view as above (`GlobalN.StepN`, `GlobalN.runStepsN`; any graph with `graphWF`, lazily expanded ones included:
+`initState g ncls store hidden`).  A *placeholder* is a result with status `"UNKNOWN"` and tag `≥ 1`: `run_test_node` appends
+`{"name": …, "status": "UNKNOWN"}` before it awaits the task and removes it when it has found the report (the model tags
+the placeholder objects `1, 2, …`; the results that replace them carry tag `0` and the status the job reported).
+`Definite.Abandoned g s steps m t`: some step of the run was taken by a worker that was inside execution `t` of copy `m`
+with `wait ≥ 10` — the task ended, ten sleeps of the result wait followed — while the report `(name, uid)` was still missing
+among the job results: the execution was given up. -/
+
+open I2N.Trav.GlobalN I2N.Trav.Definite in
+/-- **unknown_only_inside_or_abandoned** (the invariant behind `no_unknown_at_end`).  After ANY run of real workers with
+positive fuel, on every copy `m` that is not an object root: a placeholder with tag `t` exists only while some real worker
+is suspended inside execution `t` of `m` (program counter `test m plain … t …`: the task is running, or the worker sleeps
+waiting for the report) — or execution `t` was given up on the way (`Abandoned`), in which case the placeholder stays for
+ever (`never_reported_defaults_to_error`, `abandoned_placeholder_stays`).
+Hypotheses: `graphWF` (edge ends are node indices); `1 ≤ r.tag` singles out placeholders — a test that REPORTS the status
+`UNKNOWN` files a definite result with that status (`reported_unknown_is_not_a_placeholder`); object roots are excluded
+because their creation pre-step works on a copy of the result list (`preResults`), which `Basic` does not describe. -/
+theorem unknown_only_inside_or_abandoned (g : Graph) (hwf : graphWF g = true) (ncls : Nat)
+    (store : List (String × List (String × String))) (hidden : List Nat) (steps : List StepN)
+    (hreal : ∀ x ∈ steps, x.1 < g.workers.length) (hfuel : ∀ x ∈ steps, 0 < x.2.2)
+    (m : Nat) (hm : (g.node m).objectRoot = false) (r : Result)
+    (hr : r ∈ ((runStepsN g (initState g ncls store hidden) steps).nd m).results)
+    (hu : r.status = "UNKNOWN") (ht : 1 ≤ r.tag) :
+    (∃ v, v < g.workers.length ∧ ∃ dir uid wait,
+      ((runStepsN g (initState g ncls store hidden) steps).wd v).pc = .test m .plain dir uid r.tag wait) ∨
+    Abandoned g (initState g ncls store hidden) steps m r.tag := by
+  have W := GraphWF.of_bool hwf
+  rcases run_placeholder W ncls store hidden steps hreal hfuel m hm r hr hu ht with h | h
+  · exact Or.inl (owner_real (basic_run W steps _ (Basic.init g W ncls store hidden) hreal hfuel) h)
+  · exact Or.inr h
+
+open I2N.Trav.GlobalN I2N.Trav.Definite in
+/-- **never_reported_defaults_to_error**: what the model (and `run_test_node`) does when the report never arrives.  State
+`s` reachable (`ReachableR`), worker `w` inside execution `tag` of copy `n` with `wait ≥ 10` (the eleventh resumption: the
+task ended at `wait = 0`, ten sleeps of 30 s followed), report `(name n, uid)` not among the job results.  Then the step
+of `w` IS the continuation after a test that counts as failed — `continueAfter … ok := false`, the runner's default
+`error`: `traverse_node` ends, the run decision is taken again — on the unchanged state: no result is filed, the
+placeholder of `tag` STAYS in `n`'s results (all old results do), and afterwards nobody is inside execution `tag` of `n`. -/
+theorem never_reported_defaults_to_error (g : Graph) (hwf : graphWF g = true) (ncls : Nat)
+    (store : List (String × List (String × String))) (s : State) (hs : ReachableR g ncls store s)
+    (w : Nat) (out : Outcome) (fuel : Nat) (hf : 0 < fuel) (n : Nat) (dir : Dir) (uid : String) (tag wait : Nat)
+    (hpc : (s.wd w).pc = .test n .plain dir uid tag wait) (hge : 10 ≤ wait)
+    (hnone : s.jobResults.find? (fun r => r.1 == (g.node n).name && r.2.1 == uid) = none) :
+    resume g s w out fuel = resumeTest.continueAfter g w n .plain dir fuel s false [] ∧
+    phOf (g.node n).name tag ∈ ((resume g s w out fuel).1.nd n).results ∧
+    (s.nd n).results <+: ((resume g s w out fuel).1.nd n).results ∧
+    ¬ Owner (resume g s w out fuel).1 n tag :=
+  ⟨resume_abandon g s w out fuel hpc hge hnone,
+    abandon_keeps (GraphWF.of_bool hwf) (hs.basic hwf) w out fuel hf hpc hge hnone⟩
+
+open I2N.Trav.GlobalN I2N.Trav.Definite in
+/-- **no_unknown_outside_tests**: in a state of a run in which no real worker is suspended inside a test — in particular
+when all real workers are `done` (`no_unknown_at_end`) — every placeholder on a copy that is not an object root belongs to
+an execution that was given up. -/
+theorem no_unknown_outside_tests (g : Graph) (hwf : graphWF g = true) (ncls : Nat)
+    (store : List (String × List (String × String))) (hidden : List Nat) (steps : List StepN)
+    (hreal : ∀ x ∈ steps, x.1 < g.workers.length) (hfuel : ∀ x ∈ steps, 0 < x.2.2)
+    (hquiet : ∀ v, v < g.workers.length → ((runStepsN g (initState g ncls store hidden) steps).wd v).pc.isTest = false)
+    (m : Nat) (hm : (g.node m).objectRoot = false) (r : Result)
+    (hr : r ∈ ((runStepsN g (initState g ncls store hidden) steps).nd m).results)
+    (hu : r.status = "UNKNOWN") (ht : 1 ≤ r.tag) :
+    Abandoned g (initState g ncls store hidden) steps m r.tag := by
+  rcases unknown_only_inside_or_abandoned g hwf ncls store hidden steps hreal hfuel m hm r hr hu ht with
+    ⟨v, hv, _, _, _, hp⟩ | h
+  · have := hquiet v hv
+    rw [hp] at this; cases this
+  · exact h
+
+open I2N.Trav.GlobalN I2N.Trav.Definite in
+/-- **no_unknown_at_end.**  When all real workers are `done`: no copy (object roots aside) carries an in-flight UNKNOWN
+placeholder, EXCEPT for executions whose report never arrived within the ten sleeps of the result wait (`Abandoned`); for
+those the runner went on with its default `error` and left the placeholder in place (`never_reported_defaults_to_error`).
+The exception is real: `abandoned_placeholder_stays`.  If every step of the run is given a status (`Reports`: whenever a
+test task ends it has reported) there is no exception: `no_unknown_at_end_reported`. -/
+theorem no_unknown_at_end (g : Graph) (hwf : graphWF g = true) (ncls : Nat)
+    (store : List (String × List (String × String))) (hidden : List Nat) (steps : List StepN)
+    (hreal : ∀ x ∈ steps, x.1 < g.workers.length) (hfuel : ∀ x ∈ steps, 0 < x.2.2)
+    (hdone : ∀ v, v < g.workers.length → ((runStepsN g (initState g ncls store hidden) steps).wd v).pc = .done)
+    (m : Nat) (hm : (g.node m).objectRoot = false) (r : Result)
+    (hr : r ∈ ((runStepsN g (initState g ncls store hidden) steps).nd m).results)
+    (hu : r.status = "UNKNOWN") (ht : 1 ≤ r.tag) :
+    Abandoned g (initState g ncls store hidden) steps m r.tag :=
+  no_unknown_outside_tests g hwf ncls store hidden steps hreal hfuel (fun v hv => by rw [hdone v hv]; rfl) m hm r hr hu ht
+
+open I2N.Trav.GlobalN I2N.Trav.Definite in
+/-- **no_unknown_at_end_reported.**  If every resumption is given a status (`Reports steps`: no test task ends without a
+report; the status is arbitrary), no execution is ever given up, no worker ever sleeps in the result wait, and at the
+end — nobody inside a test — no copy that is not an object root carries a placeholder: every `UNKNOWN` left is a status
+that was reported (tag `0`). -/
+theorem no_unknown_at_end_reported (g : Graph) (hwf : graphWF g = true) (ncls : Nat)
+    (store : List (String × List (String × String))) (hidden : List Nat) (steps : List StepN)
+    (hreal : ∀ x ∈ steps, x.1 < g.workers.length) (hfuel : ∀ x ∈ steps, 0 < x.2.2) (hrep : Reports steps)
+    (hquiet : ∀ v, v < g.workers.length → ((runStepsN g (initState g ncls store hidden) steps).wd v).pc.isTest = false)
+    (m : Nat) (hm : (g.node m).objectRoot = false) (r : Result)
+    (hr : r ∈ ((runStepsN g (initState g ncls store hidden) steps).nd m).results) (hu : r.status = "UNKNOWN") :
+    r.tag = 0 := by
+  by_cases ht : 1 ≤ r.tag
+  · have W := GraphWF.of_bool hwf
+    exact absurd (no_unknown_outside_tests g hwf ncls store hidden steps hreal hfuel hquiet m hm r hr hu ht)
+      (not_abandoned W steps _ (Basic.init g W ncls store hidden) (w0_init g ncls store hidden) hreal hfuel hrep m r.tag)
+  · omega
+
+/-- the run `runOfGRun` of the single worker of `gRun` as a run of the many-worker scheduler -/
+def runNOfGRun : List I2N.Trav.GlobalN.StepN := runOfGRun.map (fun x => (0, x.1, x.2))
+
+/-- **The literal statement "no UNKNOWN result at the end" is FALSE** (in the model, and in `run_test_node`, which removes
+its placeholder only inside the branch that found the report): in `runOfGRun` the report of `c` (copy 3) never arrives;
+the worker ends `done`, `c` was executed once, and its only result is the placeholder (status `UNKNOWN`). -/
+theorem abandoned_placeholder_stays :
+    pcIsDone ((I2N.Trav.GlobalN.runStepsN gRun (initState gRun 5 []) runNOfGRun).wd 0).pc = true ∧
+    ((I2N.Trav.GlobalN.runStepsN gRun (initState gRun 5 []) runNOfGRun).nd 3).results.map (fun r => (r.status, r.tag)) =
+      [("UNKNOWN", 3)] ∧
+    (I2N.Trav.GlobalN.runStepsN gRun (initState gRun 5 []) runNOfGRun).jobResults.map (fun r => r.1) =
+      ["a.net1", "b.net1", "b.net1", "d.net1"] := by decide +kernel
+
+/-- … and the theorems above apply to it: the placeholder is one of an execution that was given up -/
+example : I2N.Trav.Definite.Abandoned gRun (initState gRun 5 []) runNOfGRun 3 3 :=
+  no_unknown_at_end gRun (by decide) 5 [] [] runNOfGRun (by decide) (by decide)
+    (by
+      intro v hv
+      have hv0 : v = 0 := by
+        have : v < 1 := hv
+        omega
+      subst hv0
+      have h := abandoned_placeholder_stays.1
+      cases hpc : ((I2N.Trav.GlobalN.runStepsN gRun (initState gRun 5 []) runNOfGRun).wd 0).pc <;> rw [hpc] at h <;>
+        first | rfl | cases h)
+    3 (by decide) ⟨"c.net1", "UNKNOWN", "", 3, 0⟩
+    (by
+      have h : ((I2N.Trav.GlobalN.runStepsN gRun (initState gRun 5 []) runNOfGRun).nd 3).results =
+          [⟨"c.net1", "UNKNOWN", "", 3, 0⟩] := by decide +kernel
+      rw [h]; exact List.mem_cons_self)
+    rfl (by decide)
+
+/-- Witness that `1 ≤ r.tag` cannot be dropped: a test that REPORTS the status `UNKNOWN` files a result with that status
+(tag `0`); nobody is inside that execution any more and nothing was given up. -/
+theorem reported_unknown_is_not_a_placeholder :
+    ((I2N.Trav.GlobalN.runStepsN gRun (initState gRun 5 []) [(0, ⟨none, 0⟩, 274), (0, ⟨some "UNKNOWN", 1⟩, 274)]).nd 1).results.map
+      (fun r => (r.status, r.tag)) = [("UNKNOWN", 0)] ∧
+    pcWaitOf ((I2N.Trav.GlobalN.runStepsN gRun (initState gRun 5 []) [(0, ⟨none, 0⟩, 274), (0, ⟨some "UNKNOWN", 1⟩, 274)]).wd 0).pc ≠
+      some (1, 0) := by decide +kernel
+
+/-- non-vacuity of `unknown_only_inside_or_abandoned`: after the first step of `runOfGDuo` worker 0 is inside execution 1
+of its leaf, whose only result is the placeholder -/
+example : ((I2N.Trav.GlobalN.runStepsN gDuo (initState gDuo 2 []) (runOfGDuo.take 1)).nd 1).results.map
+      (fun r => (r.status, r.tag)) = [("UNKNOWN", 1)] ∧
+    pcWaitOf ((I2N.Trav.GlobalN.runStepsN gDuo (initState gDuo 2 []) (runOfGDuo.take 1)).wd 0).pc = some (1, 0) := by
+  decide +kernel
+example := unknown_only_inside_or_abandoned gDuo (by decide) 2 [] [] (runOfGDuo.take 1) (by decide) (by decide) 1 (by decide)
+  ⟨"leaf.net1", "UNKNOWN", "", 1, 0⟩
+  (by
+    have h : ((I2N.Trav.GlobalN.runStepsN gDuo (initState gDuo 2 []) (runOfGDuo.take 1)).nd 1).results =
+        [⟨"leaf.net1", "UNKNOWN", "", 1, 0⟩] := by decide +kernel
+    rw [h]; exact List.mem_cons_self)
+  rfl (by decide)
+/-- non-vacuity of `no_unknown_at_end_reported`: a run of `gDuo` in which every resumption is given a status; both workers
+end `done`, the class has the one result `PASS` -/
+def reportedRunOfGDuo : List I2N.Trav.GlobalN.StepN :=
+  [(0, ⟨some "PASS", 1⟩, 82), (1, ⟨some "PASS", 1⟩, 82), (0, ⟨some "PASS", 1⟩, 82), (1, ⟨some "PASS", 1⟩, 82)]
+example : I2N.Trav.Definite.Reports reportedRunOfGDuo := by
+  intro x hx
+  simp only [reportedRunOfGDuo, List.mem_cons, List.not_mem_nil, or_false] at hx
+  rcases hx with h | h | h | h <;> rw [h] <;> simp
+example : pcIsDone ((I2N.Trav.GlobalN.runStepsN gDuo (initState gDuo 2 []) reportedRunOfGDuo).wd 0).pc = true ∧
+    pcIsDone ((I2N.Trav.GlobalN.runStepsN gDuo (initState gDuo 2 []) reportedRunOfGDuo).wd 1).pc = true ∧
+    ((I2N.Trav.GlobalN.runStepsN gDuo (initState gDuo 2 []) reportedRunOfGDuo).nd 1).results.map (·.status) = ["PASS"] := by
+  decide +kernel
+
+/-! ### every selected test was run
+
+`Definite.selected g n`: copy `n` is a test the stateless branch of `default_run_decision` decides about — not the shared
+root, not a dry run, not flat, not a clone source, sets no state.  `Definite.Below g w n`: `n` is reachable from the shared
+root through children that worker `w` cares for (`relevant`: flat, or `w`'s id occurs in the name) — the copies `w` is
+responsible for.  Pre-parsed graphs (`initState g ncls store`, nothing hidden). -/
+
+theorem pc_done_of_isDone {pc : Pc} (h : pcIsDone pc = true) : pc = .done := by
+  cases pc <;> first | rfl | cases h
+
+open I2N.Trav.Term I2N.Trav.GlobalN I2N.Trav.Definite in
+/-- **all_selected_run.**  After ANY run (real workers, positive fuel, any outcomes) in which worker `w` has left through
+the shared root (`done`): every selected stateless copy `n` that `w` is responsible for (`Below g w n`, `n` not the root)
+has a result in its class — some copy `m` of the class of `n` (`m ∈ g.copies n`: `n` itself or a bridged copy) carries a
+result `r`: the test was executed, by `w` or by a worker whose copy is bridged to `w`'s.  The worker cannot leave while a
+leaf it is responsible for has no result.
+Why (`Definite.DInv`, `Definite.below_done`): the loop is left only when `isCleanupReady root w`; a child class enters the
+`droppedCleanup` register of a parent class for `w` only in the downward branch of the loop body after
+`next.should_run(w)` said "no" and `next` was cleanup-ready for `w` (`afterTraverse`); "no" for a selected stateless copy
+means `shared_results ≠ []` (`Definite.runDecision_false_selected`); registers and non-empty result lists only grow.  So
+readiness of the root descends along `Below`.
+Hypotheses: `graphWF`; `edgeSymB` (technical: the path invariant `PInv` — the tested node is `w`'s own copy — is proved for
+edge-symmetric graphs); `classInjB g w` — two copies of one class that both concern `w` are equal: the registers are per
+CLASS, so with two such copies "dropped" would not say WHICH copy was decided about (no parser builds that; same
+hypothesis as `dry_run_terminates`); `done` — a worker that is still inside or died (`failed`) has run nothing yet / leaves
+its leaves unrun (`nothing_run_before_the_end`).  Stateful copies (`sets ≠ []`) are not covered: their decision goes by the
+state scan, and "not run" then means "the state exists" (C01). -/
+theorem all_selected_run (g : Graph) (hwf : graphWF g = true) (hsym : edgeSymB g = true) (ncls : Nat)
+    (store : List (String × List (String × String))) (steps : List StepN)
+    (hreal : ∀ x ∈ steps, x.1 < g.workers.length) (hfuel : ∀ x ∈ steps, 0 < x.2.2)
+    (w : Nat) (hinj : classInjB g w = true)
+    (hdone : ((runStepsN g (initState g ncls store) steps).wd w).pc = .done)
+    (n : Nat) (hb : Below g w n) (hn : n ≠ g.root) (hsel : selected g n = true) :
+    ∃ m r, m ∈ g.copies n ∧ r ∈ ((runStepsN g (initState g ncls store) steps).nd m).results := by
+  have d := dinv_run hwf (edgeSymB_sound hsym) ncls store steps _ (.init []) (.init []) (DInv.init g ncls store) hreal hfuel
+  have h := (below_done (GraphWF.of_bool hwf) d w (classInjB_sound hinj) (d.done w hdone) n hb).2 hn hsel
+  obtain ⟨r, hr⟩ := List.exists_mem_of_ne_nil _ h
+  obtain ⟨m, hm, hr'⟩ := List.mem_flatMap.mp hr
+  exact ⟨m, r, hm, hr'⟩
+
+/-- `done` cannot be dropped from `all_selected_run` (trivially): before the end nothing need have run — in the initial
+state of `gDuo` the leaf of worker 0 is selected, below the root, and no copy of its class has a result -/
+theorem nothing_run_before_the_end :
+    I2N.Trav.Definite.selected gDuo 1 = true ∧ sharedResults gDuo (initState gDuo 2 []) 1 = [] ∧
+    pcIsDone ((initState gDuo 2 []).wd 0).pc = false := by decide
+
+/-- non-vacuity: in `gDuo` the leaves 1 (worker 0) and 2 (worker 1) are selected and below the root for their workers; after
+`fairRunOfGDuo` both workers are done.  Worker 1 never executed its own copy: the result is on worker 0's copy of the class. -/
+example : I2N.Trav.Term.classInjB gDuo 0 = true ∧ I2N.Trav.Term.classInjB gDuo 1 = true ∧ I2N.Trav.Definite.selected gDuo 1 = true ∧
+    I2N.Trav.Definite.selected gDuo 2 = true ∧
+    ((I2N.Trav.GlobalN.runStepsN gDuo (initState gDuo 2 []) fairRunOfGDuo).nd 2).results = [] ∧
+    ((I2N.Trav.GlobalN.runStepsN gDuo (initState gDuo 2 []) fairRunOfGDuo).nd 1).results.map (·.status) = ["PASS"] := by
+  decide +kernel
+example := all_selected_run gDuo (by decide) (by decide) 2 [] fairRunOfGDuo (by decide +kernel) (by decide +kernel) 1
+  (by decide)
+  (pc_done_of_isDone (by decide +kernel))
+  2 (.child ["vm1"] .root (by decide) (by decide)) (by decide) (by decide)
+
+open I2N.Trav.Term I2N.Trav.Global I2N.Trav.GlobalN I2N.Trav.Fair I2N.Trav.Definite in
+/-- **done_run_has_definite_results** (`_partial`: the hypotheses of `multi_worker_terminates_fair_partial`).  Pre-parsed
+acyclic graph without object roots, class hypotheses `classesOKB`, any number of workers, any outcomes, `fuel ≥ bound g`,
+no bump, FAIR with window `K ≥ 1`; `classInjB` for every real worker.  After ANY such run of at least
+`(24·Σ_n max(max_tries n, 1) + |workers| + 1)·K` resumes: some worker is `failed`, or all workers are `done` and
+(1) every selected stateless copy a worker is responsible for has a result in its class (`all_selected_run`), and
+(2) every UNKNOWN placeholder left anywhere belongs to an execution whose report never arrived (`no_unknown_at_end`).
+If moreover every resumption is given a status (`Reports`), (2) becomes: no placeholder is left — every result of the
+run is a definite one (`done_run_has_definite_results_reported`). -/
+theorem done_run_has_definite_results_partial (g : Graph) (hr : rankedB g = true) (hsym : edgeSymB g = true)
+    (hflat : noFlatB g = true) (hwf : graphWF g = true) (ncls : Nat)
+    (hcls : ∀ n, n < g.nodes.length → (g.node n).cls < ncls) (hroots : noRootsB g = true) (hcl : classesOKB g = true)
+    (hinj : ∀ w, w < g.workers.length → classInjB g w = true)
+    (store : List (String × List (String × String))) (K : Nat) (hK : 0 < K) (steps : List StepN)
+    (hreal : ∀ x ∈ steps, x.1 < g.workers.length) (hfuel : ∀ x ∈ steps, bound g ≤ x.2.2)
+    (hcalm : BumpFree g (initState g ncls store) steps) (hfair : FairW g K (initState g ncls store) steps)
+    (hlen : (24 * resultBound g + g.workers.length + 1) * K ≤ steps.length) :
+    (∃ v, v < g.workers.length ∧ ((runStepsN g (initState g ncls store) steps).wd v).pc = .failed) ∨
+    ((∀ v, v < g.workers.length → ((runStepsN g (initState g ncls store) steps).wd v).pc = .done) ∧
+     (∀ w, w < g.workers.length → ∀ n, Below g w n → n ≠ g.root → selected g n = true →
+        ∃ m r, m ∈ g.copies n ∧ r ∈ ((runStepsN g (initState g ncls store) steps).nd m).results) ∧
+     (∀ m, ∀ r ∈ ((runStepsN g (initState g ncls store) steps).nd m).results, r.status = "UNKNOWN" → 1 ≤ r.tag →
+        Abandoned g (initState g ncls store) steps m r.tag)) := by
+  have hfuel' : ∀ x ∈ steps, 0 < x.2.2 := fun x hx => by
+    have := hfuel x hx
+    unfold bound at this
+    omega
+  rcases multi_worker_terminates_fair_partial g hr hsym hflat hwf ncls hcls hroots hcl store K hK steps hreal hfuel hcalm
+    hfair hlen with hd | hf
+  · right
+    refine ⟨hd, fun w hw n hb hn hsel => ?_, fun m r hr hu ht => ?_⟩
+    · exact all_selected_run g hwf hsym ncls store steps hreal hfuel' w (hinj w hw) (hd w hw) n hb hn hsel
+    · exact no_unknown_at_end g hwf ncls store [] steps hreal hfuel' hd m (noRoots_spec hroots m) r hr hu ht
+  · exact Or.inl hf
+
+open I2N.Trav.Term I2N.Trav.Global I2N.Trav.GlobalN I2N.Trav.Fair I2N.Trav.Definite in
+/-- **done_run_has_definite_results_reported**: the same when every resumption is given a status — at the end of every
+sufficiently long fair run some worker is `failed`, or every selected stateless copy a worker is responsible for has, in
+its class, a DEFINITE result (not a placeholder: status `UNKNOWN` only if that is what the test reported). -/
+theorem done_run_has_definite_results_reported_partial (g : Graph) (hr : rankedB g = true) (hsym : edgeSymB g = true)
+    (hflat : noFlatB g = true) (hwf : graphWF g = true) (ncls : Nat)
+    (hcls : ∀ n, n < g.nodes.length → (g.node n).cls < ncls) (hroots : noRootsB g = true) (hcl : classesOKB g = true)
+    (hinj : ∀ w, w < g.workers.length → classInjB g w = true)
+    (store : List (String × List (String × String))) (K : Nat) (hK : 0 < K) (steps : List StepN)
+    (hreal : ∀ x ∈ steps, x.1 < g.workers.length) (hfuel : ∀ x ∈ steps, bound g ≤ x.2.2)
+    (hcalm : BumpFree g (initState g ncls store) steps) (hfair : FairW g K (initState g ncls store) steps)
+    (hlen : (24 * resultBound g + g.workers.length + 1) * K ≤ steps.length) (hrep : Reports steps) :
+    (∃ v, v < g.workers.length ∧ ((runStepsN g (initState g ncls store) steps).wd v).pc = .failed) ∨
+    (∀ w, w < g.workers.length → ∀ n, Below g w n → n ≠ g.root → selected g n = true →
+        ∃ m r, m ∈ g.copies n ∧ r ∈ ((runStepsN g (initState g ncls store) steps).nd m).results ∧
+          (r.status = "UNKNOWN" → r.tag = 0)) := by
+  have hfuel' : ∀ x ∈ steps, 0 < x.2.2 := fun x hx => by
+    have := hfuel x hx
+    unfold bound at this
+    omega
+  rcases done_run_has_definite_results_partial g hr hsym hflat hwf ncls hcls hroots hcl hinj store K hK steps hreal hfuel
+    hcalm hfair hlen with hf | ⟨hd, h1, _⟩
+  · exact Or.inl hf
+  · right
+    intro w hw n hb hn hsel
+    obtain ⟨m, r, hm, hr'⟩ := h1 w hw n hb hn hsel
+    exact ⟨m, r, hm, hr', fun hu => no_unknown_at_end_reported g hwf ncls store [] steps hreal hfuel' hrep
+      (fun v hv => by rw [hd v hv]; rfl) m (noRoots_spec hroots m) r hr' hu⟩
+
+/-- non-vacuity of `done_run_has_definite_results_partial`: `fairRunOfGDuo` meets the hypotheses -/
+example := done_run_has_definite_results_partial gDuo (by decide) (by decide) (by decide) (by decide) 2 (by decide)
+  (by decide) (by decide +kernel)
+  (by
+    intro w hw
+    have : w = 0 ∨ w = 1 := by
+      have : w < 2 := hw
+      omega
+    rcases this with h | h <;> rw [h] <;> decide)
+  [] 2 (by decide) fairRunOfGDuo (by decide +kernel) (by decide +kernel)
+  (I2N.Trav.Fair.bumpFree_of_B _ _ _ (by decide +kernel)) (by decide +kernel) (by decide +kernel)
+
+/-- a fair run of `gDuo` in which every resumption is given a status: `reportedRunOfGDuo`, then 146 resumes of the
+finished worker 0 (150 steps, window 2) -/
+def fairReportedRunOfGDuo : List I2N.Trav.GlobalN.StepN :=
+  reportedRunOfGDuo ++ List.replicate 146 (0, ⟨some "PASS", 1⟩, 82)
+
+example : I2N.Trav.Fair.FairW gDuo 2 (initState gDuo 2 []) fairReportedRunOfGDuo ∧
+    I2N.Trav.Fair.bumpFreeB gDuo (initState gDuo 2 []) fairReportedRunOfGDuo = true ∧
+    fairReportedRunOfGDuo.length = 150 := by decide +kernel
+example : I2N.Trav.Definite.Reports fairReportedRunOfGDuo := by
+  intro x hx
+  unfold fairReportedRunOfGDuo reportedRunOfGDuo at hx
+  rcases List.mem_append.mp hx with h | h
+  · simp only [List.mem_cons, List.not_mem_nil, or_false] at h
+    rcases h with h | h | h | h <;> rw [h] <;> simp
+  · rw [List.eq_of_mem_replicate h]; simp
 
 end I2N.Props.C02
